@@ -62,13 +62,18 @@ pub fn corpus() -> Vec<String> {
     out.into_iter().collect()
 }
 
-const VALUES: [&str; 72] = [
+const VALUES: [&str; 84] = [
     "", "0", "-0", "1", "-1", "nan", "NaN", "inf", "-inf", "infinity", "1e400", "-1e400", "1e-400", "4.9e-324", "1.7976931348623157e308",
     "90", "-90", "180", "360", "1e9", "0.9996", "500000", "12:30", "12:30:15", "12:30:15N", "55:30W", "-12:30:15.5", "::", ":", "1:2:3:4", "12:60:61", "N", "S",
     "true", "false", "TRUE", "x", "ü", "😀", "$x", "$x(1)", "$", "$(", "(", ")", "*", "^3", "^", "1,2,3", "1,2", ",", ",,", "1,,3", "1,x,3", "1,2,3,4,5,6,7,8",
     "GRS80", "intl", "sphere", "unitsphere", "6378137,298.25", "(6378137, 0)", "0,0", "nosuch", "@null", "@missing.gsb", "missing.gsb", "test.datum", "test.geoid,@null", "5458.gsb",
     "99999999999999999999999999999999999999", "0x10", "1_000",
+    // characters whose upper or lower case has another length in bytes or in characters
+    "1ß", "2ſ", "3ŉ", "4ǰ", "5ﬁ", "6İ", "7ı", "8\u{212a}", "12:30ß", "9ΐ", "1ẞ", "ſ",
 ];
+
+/// characters whose case mappings change the length (bytes or characters), or fold onto N S E W
+pub const CASE_TRAPS: [char; 14] = ['ß', 'ſ', 'ŉ', 'ǰ', 'ﬁ', 'İ', 'ı', '\u{212a}', 'ΐ', 'ẞ', 'ﬆ', 'ǅ', 'ⓝ', 'ｗ'];
 
 fn value(r: &mut Rng) -> String {
     match r.below(12) {
@@ -77,7 +82,7 @@ fn value(r: &mut Rng) -> String {
         2 => format!("{},{},{}", r.range(-9, 9), r.range(-9, 9), r.range(-9, 9)),
         3 => {
             let n = r.below(40);
-            (0..n).map(|_| *r.pick(&['1', '9', '.', '-', ':', ',', 'e', 'N', ' ', 'ß', '€'])).collect::<String>().replace(' ', "")
+            (0..n).map(|_| *r.pick(&['1', '9', '.', '-', ':', ',', 'e', 'N', ' ', 'ß', '€', 'ſ', 'ŉ', 'İ', 'ﬁ'])).collect::<String>().replace(' ', "")
         }
         _ => r.pick(&VALUES).to_string(),
     }
@@ -262,6 +267,39 @@ pub fn generate(g: &mut Gen, thorough: bool) {
             }
         }
     }
+    // the grid operators at, just inside and just outside every border of the shipped grids and
+    // their sub-grids (the containment tests use tolerances of 1e-6 and half a cell)
+    for (grids, borders) in [
+        ("5458.gsb", &[(54.0, 58.0, 8.0, 16.0)][..]),
+        ("5458_with_subgrid.gsb", &[(54.0, 58.0, 8.0, 16.0), (55.0, 56.0, 12.0, 14.0)][..]),
+        ("5458_with_subgrid.gsb,@null", &[(54.0, 58.0, 8.0, 16.0), (55.0, 56.0, 12.0, 14.0)][..]),
+        ("@missing.gsb,5458.gsb,@null", &[(54.0, 58.0, 8.0, 16.0)][..]),
+        ("test.datum", &[(54.0, 58.0, 8.0, 16.0)][..]),
+        ("test.geoid", &[(54.0, 58.0, 8.0, 16.0)][..]),
+        ("test_subset.datum,test.datum", &[(54.0, 58.0, 8.0, 16.0), (55.0, 57.0, 10.0, 14.0)][..]),
+    ] {
+        for dir in ["F", "I"] {
+            let mut pts: Vec<[f64; 4]> = vec![];
+            for &(s, n, w, e) in borders {
+                for off in [0.0, 1e-12, 1e-10, 1e-8, 9e-7, 1.1e-6, 1e-5, 0.0087, 0.0088] {
+                    for sign in [-1.0, 1.0] {
+                        let o = sign * off;
+                        let (mlat, mlon) = (((s + n) / 2.0f64).to_radians(), ((w + e) / 2.0f64).to_radians());
+                        pts.push([(w as f64).to_radians() + o, mlat, 0.0, 0.0]);
+                        pts.push([(e as f64).to_radians() + o, mlat, 0.0, 0.0]);
+                        pts.push([mlon, (s as f64).to_radians() + o, 0.0, 0.0]);
+                        pts.push([mlon, (n as f64).to_radians() + o, 0.0, 0.0]);
+                        pts.push([(w as f64).to_radians() + o, (s as f64).to_radians() + o, 0.0, 0.0]);
+                        pts.push([(e as f64).to_radians() + o, (n as f64).to_radians() - o, 0.0, 0.0]);
+                    }
+                }
+            }
+            let def = format!("gridshift grids={grids}");
+            let d = crate::wire::data_of(&pts);
+            g.push(case("plain", &[], &format!("{def}{}", if dir == "I" { " inv" } else { "" }), &d), "oracle-grid-borders", true);
+            g.push(super::opg_line(&super::shipped_grids_of(&def), &def, "apply", dir, &d), "model-grid-borders", true);
+        }
+    }
     // the stack operators with every kind of argument list
     for sub in ["push", "pop", "flip", "roll", "unroll"] {
         for args in ["0", "0,0", "-0,0", "1,0", "1,1", "2,1", "2,-1", "2,2", "3,-3", "1,2,3,4", "4,4,4,4", "5", "1,,2", "1,x", "1e30,-1", "9223372036854775807,-1", "-9223372036854775808,1", "1.5,1", "2,1,1", "", "nan,1", "inf,1", "3,0"] {
@@ -395,6 +433,20 @@ pub fn generate(g: &mut Gen, thorough: bool) {
             let v = if g.rng.chance(1, 2) { x } else { y };
             g.push(format!("ANG\t{f}\t{}", fbits(v)), &format!("ang-{f}"), true);
         }
+    }
+    // every kind of parameter value followed, preceded or interrupted by a character whose case
+    // mapping has another length: a value, not a crash
+    for c in CASE_TRAPS {
+        for (op, key, v) in [("helmert", "x", "1"), ("helmert", "translation", "1,2,3"), ("merc", "lon_0", "12"), ("merc", "lat_ts", "12:30"), ("axisswap", "order", "2,1"), ("utm", "zone", "32"), ("merc", "ellps", "GRS80"), ("stack", "push", "1"), ("adapt", "from", "neuf_deg"), ("unitconvert", "xy_in", "deg")] {
+            for text in [format!("{v}{c}"), format!("{c}{v}"), format!("{}{c}{}", &v[..1], &v[1..]), format!("{v}N{c}"), format!("{v}{c}N")] {
+                let def = format!("{op} {key}={text}");
+                let data = crate::wire::data_of(&[[0.2, 0.9, 10.0, 2000.0]]);
+                g.push(super::op_line("default", &[], &[], &def, "apply", "F", &data), "case-trap-values", true);
+                g.push(format!("TOK\tparams\t{}", escape(&def)), "tok-params", true);
+            }
+        }
+        g.push(format!("S_C09N\tGRS80{c}"), "oracle-ellipsoid-named", true);
+        g.push(format!("S_C09N\t{c}"), "oracle-ellipsoid-named", true);
     }
     // the public functions of the ellipsoid module on arbitrary shapes and arguments
     for _ in 0..(300 * scale) {
